@@ -22,6 +22,7 @@ import (
 	"lunar/toolkit-core/logging"
 	"lunar/toolkit-core/network"
 	"lunar/toolkit-core/otel"
+	"lunar/toolkit-core/verifhook"
 	"net/http"
 	"sync"
 	"time"
@@ -241,10 +242,15 @@ func (rd *HandlingDataManager) initializeStreams() (err error) {
 		return fmt.Errorf("failed to create stream: %w", err)
 	}
 	rd.stream = stream
+	verifhook.Point("hdm.published")
 	rd.stream.WithHub(rd.lunarHub)
+	if err = verifhook.Fault("hdm.initialize"); err != nil {
+		return fmt.Errorf("failed to initialize streams: %w", err)
+	}
 	if err = rd.stream.Initialize(); err != nil {
 		return fmt.Errorf("failed to initialize streams: %w", err)
 	}
+	verifhook.Point("hdm.initialized")
 
 	rd.stream.InitializeHubCommunication()
 	if err = config.WaitForProxyHealthcheck(); err != nil {
